@@ -949,6 +949,22 @@ func c16NNS(rt *rapid.T, h *ev.History, v int64) {
 			}
 		}
 	}
+	// records beyond id 15: the limit of 16 values per name and type is younger than the oldest supported release, so an
+	// old storage may hold more; they are data like any other and must still be readable after the update
+	surplus, nSurplus := "", 0
+	if rapid.IntRange(0, 2).Draw(rt, "recordsBeyondTheLimit") == 0 {
+		u := w.users[0]
+		if o := w.c.Invoke([]neotest.Signer{u}, w.nns, "register", "legacy16.com", u.ScriptHash(), "m@nspcc.io", int64(1), int64(2), int64(100000), int64(3)); o.Halt {
+			if b, _ := o.Bool(); b {
+				surplus, nSurplus = "legacy16.com", rapid.IntRange(1, 4).Draw(rt, "surplusRecords")
+				for i := 0; i < 16; i++ {
+					if o := w.c.Invoke([]neotest.Signer{u}, w.nns, "addRecord", surplus, recTXT, fmt.Sprintf("t%d", i)); !o.Halt {
+						panic(chainkit.HarnessError{Msg: "c16 nns: filling the record list: " + o.Fault})
+					}
+				}
+			}
+		}
+	}
 	cs := &c16Case{name: "nns", c: w.c, live: w.nns, v: v, legacy: map[string][]byte{}, leftovers: map[string][]byte{}}
 	tldOwner := w.c.Committee.ScriptHash().BytesBE()
 	if rapid.Bool().Draw(rt, "tldOwnerIsUser") {
@@ -980,9 +996,68 @@ func c16NNS(rt *rapid.T, h *ev.History, v int64) {
 		}
 		cs.legacy[bk] = leBig(cur + extra)
 	}
+	var surplusItems []stackitem.Item
+	if surplus != "" {
+		key15 := ""
+		for k, val := range w.c.Storage(w.nns) {
+			it, err := stackitem.Deserialize(val)
+			if err != nil || it.Type() != stackitem.StructT {
+				continue
+			}
+			f := chainkit.ItemArr(it)
+			if len(f) == 4 && f[0].Type() == stackitem.ByteArrayT && string(chainkit.ItemBytes(f[0])) == surplus && f[1].Type() == stackitem.IntegerT && chainkit.ItemInt(f[1]) == int64(recTXT) && chainkit.ItemInt(f[3]) == 15 && k[len(k)-1] == 15 {
+				key15 = k
+			}
+		}
+		if key15 == "" {
+			panic(chainkit.HarnessError{Msg: "c16 nns: record 15 of the filled list not found in storage"})
+		}
+		for j := 16; j < 16+nSurplus; j++ {
+			rec := stackitem.NewStruct([]stackitem.Item{stackitem.NewByteArray([]byte(surplus)), stackitem.Make(int64(recTXT)), stackitem.NewByteArray([]byte(fmt.Sprintf("old-%d", j))), stackitem.Make(int64(j))})
+			k := key15[:len(key15)-1] + string([]byte{byte(j)})
+			cs.legacy[k] = ser(rec)
+			cs.leftovers[k] = cs.legacy[k]
+			surplusItems = append(surplusItems, rec)
+		}
+		h.Mark("nns-records-beyond-id-15")
+	}
 	stub, ok := cs.run(h)
 	if !ok {
 		return
+	}
+	if surplus != "" {
+		// the live contract answers with the 16 records it could store itself; the upgraded one must answer with those
+		// followed by the old release's further ones, in id order
+		for _, q := range []struct {
+			method string
+			args   []any
+			whole  bool
+		}{{"getRecords", []any{surplus, recTXT}, false}, {"resolve", []any{surplus, recTXT}, false}, {"getAllRecords", []any{surplus}, true}} {
+			a, okA := w.c.Call(nil, w.nns, q.method, q.args...).Array()
+			bo := w.c.Call(nil, stub, q.method, q.args...)
+			b, okB := bo.Array()
+			if !okA {
+				panic(chainkit.HarnessError{Msg: "c16 nns: live " + q.method + " failed"})
+			}
+			var want []string
+			for _, it := range a {
+				want = append(want, chainkit.ItemString(it))
+			}
+			for _, it := range surplusItems {
+				if q.whole {
+					want = append(want, chainkit.ItemString(it))
+				} else {
+					want = append(want, chainkit.ItemString(chainkit.ItemArr(it)[2]))
+				}
+			}
+			var got []string
+			for _, it := range b {
+				got = append(got, chainkit.ItemString(it))
+			}
+			if !okB || strings.Join(got, " ") != strings.Join(want, " ") {
+				fail("C16: nns.%s%v answers %s after the upgrade from %d; the old storage held records 0..%d of that name: expected %v", q.method, shortArgs(q.args), bo, v, 15+nSurplus, want)
+			}
+		}
 	}
 	cs.sameAPI(stub, "totalSupply")
 	cs.sameAPI(stub, "roots")
